@@ -1029,6 +1029,38 @@ mod oracle {
                 if p[0] > 1.0 { f64::NAN } else { p[0].ln() - p[0] }   // NaN for x <= 0 (ln of a negative), NaN region above 1
             }
         }
+        /// log p(x) = -(sqrt(x0) - 1)^2 - x1^2/2: value and gradient are NaN for x0 < 0
+        #[derive(Clone)]
+        struct SqrtWall;
+        impl<Bk: burn::tensor::backend::AutodiffBackend> GradientTarget<f64, Bk> for SqrtWall {
+            fn unnorm_logp(&self, position: Tensor<Bk, 1>) -> Tensor<Bk, 1> {
+                let x0 = position.clone().slice([0..1]);
+                let x1 = position.slice([1..2]);
+                -(x0.sqrt().sub_scalar(1.0)).powi_scalar(2) - x1.powi_scalar(2).mul_scalar(0.5)
+            }
+        }
+        /// a transition whose trajectory runs into NaN values must end (and leave the chain at a state of defined density)
+        #[test]
+        fn oracle_c14_nuts_returns_from_nan_trajectories() {
+            for seed in 0..3u64 {
+                let res = super::within(40, move || {
+                    let mut ch = NUTSChain::<f64, B, _>::new(SqrtWall, vec![0.3, 0.1], 0.8).set_seed(seed);
+                    ch.run(60, 20).to_data().to_vec::<f64>().unwrap()
+                });
+                match res {
+                    None => witness(format!("{{\"oracle\":\"c14\",\"sampler\":\"nuts\",\"seed\":{seed},\"what\":\"80 transitions on a target with NaN value and gradient outside its support did not finish within 40 s (a transition does not return)\"}}")),
+                    Some(out) => {
+                        for k in 0..60 {
+                            let (x0, x1) = (out[2 * k], out[2 * k + 1]);
+                            let l = -(x0.sqrt() - 1.0).powi(2) - 0.5 * x1 * x1;
+                            if !l.is_finite() {
+                                witness(format!("{{\"oracle\":\"c14\",\"sampler\":\"nuts\",\"seed\":{seed},\"state\":[{x0},{x1}],\"what\":\"moved to a state of log-density {l}\"}}"));
+                            }
+                        }
+                    }
+                }
+            }
+        }
         #[test]
         fn oracle_c14_no_sampler_moves_to_zero_or_nan_density() {
             // MH with proposals that leave the support
@@ -1249,6 +1281,69 @@ mod oracle {
         }
     }
 
+    mod densities_f32 {
+        use super::*;
+        use burn::backend::{Autodiff, NdArray};
+        use burn::tensor::{Tensor, TensorData};
+        use mini_mcmc::distributions::{BatchedGradientTarget, DiffableGaussian2D, GradientTarget};
+        /// f32 backend, a mean far from the origin relative to the spread: batched, single-point and closed form agree to
+        /// f32-level accuracy (an algebraically equal but uncentred formula cancels catastrophically here), and so does the gradient
+        #[test]
+        fn oracle_c15_f32_accuracy_far_from_the_origin() {
+            type B = Autodiff<NdArray<f32>>;
+            for (mean, cov) in [([1000.0f32, -500.0], [[0.0225f32, 0.0], [0.0, 0.0225]]), ([-300.0, 250.0], [[0.04, 0.01], [0.01, 0.09]]), ([0.0, 1.0], [[4.0, 2.0], [2.0, 3.0]])] {
+                let (m, c) = ([mean[0] as f64, mean[1] as f64], [[cov[0][0] as f64, cov[0][1] as f64], [cov[1][0] as f64, cov[1][1] as f64]]);
+                let det = c[0][0] * c[1][1] - c[0][1] * c[1][0];
+                let inv = [[c[1][1] / det, -c[0][1] / det], [-c[1][0] / det, c[0][0] / det]];
+                let norm = -(2.0 * std::f64::consts::PI).ln() - 0.5 * det.ln();
+                let dg = DiffableGaussian2D::new(mean, cov);
+                let pts: Vec<[f32; 2]> = vec![[mean[0], mean[1]], [mean[0] + 0.125, mean[1] - 0.25], [mean[0] - 0.375, mean[1] + 0.0625]];
+                let flat: Vec<f32> = pts.iter().flatten().cloned().collect();
+                let batch = <DiffableGaussian2D<f32> as BatchedGradientTarget<f32, B>>::unnorm_logp_batch(&dg, Tensor::<B, 2>::from_data(TensorData::new(flat, [pts.len(), 2]), &Default::default())).to_data().to_vec::<f32>().unwrap();
+                for (i, x) in pts.iter().enumerate() {
+                    let d = [x[0] as f64 - m[0], x[1] as f64 - m[1]];
+                    let z = [inv[0][0] * d[0] + inv[0][1] * d[1], inv[1][0] * d[0] + inv[1][1] * d[1]];
+                    let want = norm - 0.5 * (z[0] * d[0] + z[1] * d[1]);
+                    let (lp, grad) = <DiffableGaussian2D<f32> as GradientTarget<f32, B>>::unnorm_logp_and_grad(&dg, Tensor::<B, 1>::from_data(TensorData::new(x.to_vec(), [2]), &Default::default()));
+                    let lp = lp.to_data().to_vec::<f32>().unwrap()[0] as f64;
+                    let grad = grad.to_data().to_vec::<f32>().unwrap();
+                    let tol = |w: f64| 2e-3 * (1.0 + w.abs());
+                    if (lp - want).abs() > tol(want) || (batch[i] as f64 - want).abs() > tol(want) {
+                        witness(format!("{{\"oracle\":\"c15\",\"mean\":{mean:?},\"cov\":{cov:?},\"x\":{x:?},\"what\":\"f32: single-point {lp} / batched {} but the log-density is {want}\"}}", batch[i]));
+                    }
+                    for k in 0..2 {
+                        if (grad[k] as f64 + z[k]).abs() > tol(z[k]) {
+                            witness(format!("{{\"oracle\":\"c15\",\"mean\":{mean:?},\"cov\":{cov:?},\"x\":{x:?},\"what\":\"f32: gradient {grad:?} but the true gradient is {:?}\"}}", [-z[0], -z[1]]));
+                        }
+                    }
+                }
+            }
+        }
+        /// `std` is a public field: logp is the density of the distribution `sample` draws from *now*
+        #[test]
+        fn oracle_c15_isotropic_logp_follows_the_std_field() {
+            for (s0, s1) in [(1.0f64, 0.25f64), (0.5, 3.0), (2.0, 2.0)] {
+                let mut p = IsotropicGaussian::<f64>::new(s0).set_seed(3);
+                p.std = s1;
+                let (from, to) = (vec![0.3f64, -1.0], vec![0.8f64, -0.4]);
+                let ssd: f64 = from.iter().zip(&to).map(|(a, b)| (b - a) * (b - a)).sum();
+                let want = -ssd / (2.0 * s1 * s1) - (2.0 * std::f64::consts::PI * s1 * s1).ln();
+                let got = p.logp(&from, &to);
+                if (got - want).abs() > 1e-9 * (1.0 + want.abs()) {
+                    witness(format!("{{\"oracle\":\"c15\",\"std_at_construction\":{s0},\"std_now\":{s1},\"what\":\"logp = {got}, density of the sampled distribution is {want}\"}}"));
+                }
+                // the draws do follow the field
+                let n = 3000;
+                let mut s2 = 0.0;
+                for _ in 0..n { let y = p.sample(&from); s2 += (y[0] - from[0]).powi(2); }
+                let sd = (s2 / n as f64).sqrt();
+                if (sd / s1 - 1.0).abs() > 0.1 {
+                    witness(format!("{{\"oracle\":\"c15\",\"std_now\":{s1},\"what\":\"sample spread {sd}\"}}"));
+                }
+            }
+        }
+    }
+
     // ---------------------------------------------------------------- C10 ------------
     /// a target that is slow for one particular chain (identified by its first coordinate's sign pattern)
     #[derive(Clone)]
@@ -1289,6 +1384,53 @@ mod oracle {
             witness("{\"oracle\":\"c10\",\"sampler\":\"gibbs\",\"what\":\"run_progress differs from run\"}".to_string());
         }
     }
+    /// a target whose k-th evaluation (counted over all clones) takes `secs` seconds
+    #[derive(Clone)]
+    struct SlowAt {
+        count: std::sync::Arc<std::sync::atomic::AtomicUsize>,
+        at: Vec<usize>,
+        millis: u64,
+    }
+    impl Target<f64, f64> for SlowAt {
+        fn unnorm_logp(&self, p: &[f64]) -> f64 {
+            let k = self.count.fetch_add(1, std::sync::atomic::Ordering::SeqCst);
+            if self.at.contains(&k) {
+                std::thread::sleep(std::time::Duration::from_millis(self.millis));
+            }
+            -0.5 * p[0] * p[0]
+        }
+    }
+    /// runs `f` on its own thread; None when it has not finished after `secs` seconds
+    fn within<R: Send + 'static>(secs: u64, f: impl FnOnce() -> R + Send + 'static) -> Option<R> {
+        let (tx, rx) = std::sync::mpsc::channel();
+        std::thread::spawn(move || { let _ = tx.send(f()); });
+        rx.recv_timeout(std::time::Duration::from_secs(secs)).ok()
+    }
+    /// Progress mode terminates (and returns run's draws) when a chain's last transitions are slower than the
+    /// reporter's one-second period, with one and with several chains.
+    #[test]
+    fn oracle_c10_progress_terminates_with_slow_last_transitions() {
+        // MH: 1 evaluation in `new` per chain, then one per transition
+        for (n_chains, at) in [(1usize, vec![5usize]), (1, vec![3, 4, 5]), (3, vec![17])] {
+            let total = 5usize; // n_discard 1 + n_collect 4
+            let at2 = at.clone();
+            let res = within(25, move || {
+                let init: Vec<Vec<f64>> = (0..n_chains).map(|c| vec![0.1 * c as f64]).collect();
+                let t = SlowAt { count: Default::default(), at: at2, millis: 1300 };
+                let mut s = MetropolisHastings::new(t, IsotropicGaussian::<f64>::new(0.5), init).seed(4);
+                s.run_progress(total - 1, 1).map(|(a, _)| a.dim()).map_err(|e| e.to_string())
+            });
+            match res {
+                None => witness(format!("{{\"oracle\":\"c10\",\"sampler\":\"mh\",\"chains\":{n_chains},\"slow_evaluations\":{at:?},\"what\":\"run_progress did not return within 25 s (transitions of 1.3 s near the end of a chain)\"}}")),
+                Some(Err(e)) => witness(format!("{{\"oracle\":\"c10\",\"sampler\":\"mh\",\"chains\":{n_chains},\"what\":\"run_progress failed: {e}\"}}")),
+                Some(Ok(d)) => {
+                    if d != (n_chains, total - 1, 1) {
+                        witness(format!("{{\"oracle\":\"c10\",\"sampler\":\"mh\",\"chains\":{n_chains},\"what\":\"shape {d:?}\"}}"));
+                    }
+                }
+            }
+        }
+    }
     mod progress_tensor {
         use super::*;
         use burn::backend::{Autodiff, NdArray};
@@ -1315,6 +1457,26 @@ mod oracle {
                 if a[c * 12 + 2..(c + 1) * 12] != b[c * 10..(c + 1) * 10] {
                     witness(format!("{{\"oracle\":\"c10\",\"sampler\":\"nuts\",\"chain\":{c},\"what\":\"run_progress is not the run trajectory shifted by one draw\"}}"));
                 }
+            }
+            // the same from a sampler that has been run before (the warm-up counter and step size persist across calls)
+            let (mut s1, mut s2) = (nuts(), nuts());
+            let _ = s1.run(3, 4);
+            let _ = s2.run(3, 4);
+            let a = s1.run(5, 6).to_data().to_vec::<f32>().unwrap(); // [3, 5, 2]
+            let (b, _) = s2.run_progress(4, 6).unwrap();
+            let b = b.to_data().to_vec::<f32>().unwrap(); // [3, 4, 2]
+            for c in 0..3 {
+                if a[c * 10 + 2..(c + 1) * 10] != b[c * 8..(c + 1) * 8] {
+                    witness(format!("{{\"oracle\":\"c10\",\"sampler\":\"nuts\",\"chain\":{c},\"what\":\"on a sampler that was run before, run_progress is not the run trajectory shifted by one draw\"}}"));
+                }
+            }
+            let (mut h1, mut h2) = (hmc(), hmc());
+            let _ = h1.run(2, 1);
+            let _ = h2.run_progress(2, 1).unwrap();
+            let a = h1.run(4, 0).to_data().to_vec::<f32>().unwrap();
+            let (b, _) = h2.run_progress(4, 0).unwrap();
+            if a != b.to_data().to_vec::<f32>().unwrap() {
+                witness("{\"oracle\":\"c10\",\"sampler\":\"hmc\",\"what\":\"second run_progress differs from second run\"}".to_string());
             }
         }
     }
